@@ -20,6 +20,20 @@ def mk_tr(spec):
         return mk_tr(spec[1]) | mk_tr(spec[2])
     if spec[0] == 'comp':
         return TransformerComposition([mk_tr(x) for x in spec[1]])
+    if spec == 'KEEP1':
+        # a user-defined *idempotent* pass that is not one of the library's: keep only the first output
+        from cirbo.core.circuit.transformer import Transformer
+        import copy as _copy
+
+        class KeepFirstOutput(Transformer):
+            __idempotent__ = True
+
+            def _transform(self, circuit):
+                c = _copy.copy(circuit)
+                c.set_outputs(list(c.outputs)[:1])
+                return c
+
+        return KeepFirstOutput()
     if spec[0] == 'user':
         # a user-defined pass: the body of RemoveRedundantGates under its own class, with the given
         # passes declared as its pre- and post-transformers (which bring their own implied passes)
